@@ -1325,6 +1325,10 @@ class Program:
                 if isinstance(fn, ast.Name) and fn.id in ("abs", "round", "int", "float", "len", "min", "max"):
                     return {"abs": abs, "round": round, "int": int, "float": float, "len": len,
                             "min": min, "max": max}[fn.id](*args)
+                if isinstance(fn, ast.Name) and fn.id in ("frozenset", "set", "tuple", "list", "sorted") and len(args) <= 1:
+                    if not args:
+                        return {"frozenset": frozenset(), "set": frozenset(), "tuple": (), "list": [], "sorted": []}[fn.id]
+                    return {"frozenset": frozenset, "set": frozenset, "tuple": tuple, "list": list, "sorted": sorted}[fn.id](args[0])
                 if isinstance(fn, ast.Name) and fn.id == "range" and 1 <= len(args) <= 3 and all(isinstance(a, int) and not isinstance(a, bool) for a in args):
                     r = range(*args)
                     if len(r) > 64:
